@@ -229,6 +229,9 @@ func cmdRun(args []string) int {
 	}
 	// determinism self-check: the first runs again, in another process, with another GOMAXPROCS
 	nself := 6
+	if *prop == "C14" {
+		nself = map[string]int{"quick": 60, "thorough": 2000}[*tier]
+	}
 	if nself > runs {
 		nself = runs
 	}
@@ -266,7 +269,21 @@ func cmdRun(args []string) int {
 			}
 		}
 	}
-	if !selfOK {
+	// C14 "across processes": the canonical replica of the same run, executed in another OS
+	// process after a different sequence of earlier runs, must observe the same results.
+	if *prop == "C14" && len(total.Viol) == 0 {
+		for run, h := range sc.acc.ObsHash {
+			if h2, ok := total.ObsHash[run]; ok && h2 != h {
+				total.Viol = append(total.Viol, &sim.Violation{Prop: "C14", Clause: "the same scenario, canonical seams, observes different results in two OS processes",
+					Sig: "cross-process", Unseamed: true, Detail: fmt.Sprintf("run %d of VERIF_SEED=%d (scenario = generator output for that run); statistical replay: re-run the check", run, *seed),
+					Scenario: &sim.Scenario{Prop: "C14", Seed: *seed, Run: run, Note: "regenerate with sim.genC14(H(seed, C14, run))"}})
+				break
+			}
+		}
+	}
+	if !selfOK && len(total.Viol) == 0 {
+		// an event log that differs between two executions of the same run, with no violation of
+		// the property to explain it, is trouble in the harness
 		return 2
 	}
 
